@@ -479,12 +479,20 @@ fn check_stmt_requires_semicolon(
 ) -> bool {
     // Need to check next statement if it is a function call, with a parameters expression as the prefix
     // If so, removing a semicolon may lead to ambiguous syntax
-    // Ambiguous syntax can only occur if the current statement is a (Local)Assignment, FunctionCall or a Repeat block
-    match stmt {
+    // Ambiguous syntax can only occur if the current statement is a (Local/Compound)Assignment, FunctionCall or a Repeat block
+    let can_end_in_expression = match stmt {
         Stmt::Assignment(_)
         | Stmt::LocalAssignment(_)
         | Stmt::FunctionCall(_)
-        | Stmt::Repeat(_) => match next_stmt {
+        | Stmt::Repeat(_) => true,
+        // `a += b` also ends in an expression: `a += b (c)()` would be parsed as a call of `b`
+        #[cfg(feature = "luau")]
+        Stmt::CompoundAssignment(_) => true,
+        _ => false,
+    };
+
+    match can_end_in_expression {
+        true => match next_stmt {
             Some((Stmt::FunctionCall(function_call), _)) => match function_call.prefix() {
                 Prefix::Expression(expression) => {
                     matches!(&**expression, Expression::Parentheses { .. })
@@ -501,7 +509,7 @@ fn check_stmt_requires_semicolon(
             }
             _ => false,
         },
-        _ => false,
+        false => false,
     }
 }
 
